@@ -337,6 +337,9 @@ def p3_items(tier):
         out.append([sp, 'plain'])
     out.append([['s', 's', 's'], 'plain'])
     out.append([['s'], 'other-csi'])
+    out.append([['s'], 'unterminated-tail'])
+    out.append([[], 'unterminated-tail'])
+    out.append([['c'], 'esc-tail'])
     return out
 
 
@@ -358,6 +361,13 @@ def p3_task(envr, item):
         Tl = c.opaque_text('Tlast')
         Tl.escfree = True
         atoms.extend(sym.atoms_of(sym.s_opaque(Tl)))
+        if flavour == 'unterminated-tail':
+            # the input ends inside a control sequence that never gets its final byte: kept verbatim as text
+            atoms.extend([('lit', '\x1b['), ('istr', c.named_int('tailcode', 0, 99))])
+            if c.choice(2):
+                atoms.append(('lit', ';'))
+        elif flavour == 'esc-tail':
+            atoms.append(('lit', ['\x1b', '\x1b['][c.choice(2)]))
         s = sym.mk_rope(atoms)
         obj = PObj('AnsiString', {'_fmts': PDict(), '_s': ''})
         run_contract(envr, c, 'AnsiString.set_ansi_str', obj, [s], {}, CL_P3)
